@@ -385,6 +385,12 @@ func evalCond(v ssa.Value, assign func(ssa.Value) (bool, bool), at, pred *ssa.Ba
 			val, have = ev, true
 		}
 		return val, have
+	case *ssa.Extract:
+		if call, ok := x.Tuple.(*ssa.Call); ok {
+			return evalHelperResult(call, x.Index, assign, depth)
+		}
+	case *ssa.Call:
+		return evalHelperResult(x, 0, assign, depth)
 	case *ssa.BinOp:
 		// b == true / b != false on booleans
 		if x.Op == token.EQL || x.Op == token.NEQ {
@@ -406,12 +412,19 @@ func evalCond(v ssa.Value, assign func(ssa.Value) (bool, bool), at, pred *ssa.Ba
 // reachableUnder: blocks of fn reachable from the entry when the leaves take the assigned values
 // (conditions that cannot be evaluated allow both edges).
 func reachableUnder(fn *ssa.Function, assign func(ssa.Value) (bool, bool)) map[*ssa.BasicBlock]bool {
-	type edge struct{ from, to *ssa.BasicBlock }
-	seenE := map[edge]bool{}
+	reach, _ := feasibleUnder(fn, assign)
+	return reach
+}
+
+type cfgEdge struct{ from, to *ssa.BasicBlock }
+
+// feasibleUnder: reachable blocks and feasible edges of fn under the assignment.
+func feasibleUnder(fn *ssa.Function, assign func(ssa.Value) (bool, bool)) (map[*ssa.BasicBlock]bool, map[cfgEdge]bool) {
+	seenE := map[cfgEdge]bool{}
 	reach := map[*ssa.BasicBlock]bool{}
-	var work []edge
+	var work []cfgEdge
 	push := func(from, to *ssa.BasicBlock) {
-		e := edge{from, to}
+		e := cfgEdge{from, to}
 		if !seenE[e] {
 			seenE[e] = true
 			work = append(work, e)
@@ -440,7 +453,67 @@ func reachableUnder(fn *ssa.Function, assign func(ssa.Value) (bool, bool)) map[*
 			push(b, s)
 		}
 	}
-	return reach
+	return reach, seenE
+}
+
+// evalHelperResult evaluates result #idx of a call to a boolean-valued helper under the
+// assignment: the helper's own control flow is restricted to the edges feasible under the
+// assignment, and every feasible return must yield the same known value.
+var helperEvalDepth int
+
+func evalHelperResult(call *ssa.Call, idx int, assign func(ssa.Value) (bool, bool), depth int) (bool, bool) {
+	sc := call.Call.StaticCallee()
+	if sc == nil || !isHelper(sc) || helperEvalDepth >= 2 {
+		return false, false
+	}
+	o := originOf(sc)
+	helperEvalDepth++
+	defer func() { helperEvalDepth-- }()
+	reach, feas := feasibleUnder(o, assign)
+	var evalF func(v ssa.Value, d int) (bool, bool)
+	evalF = func(v ssa.Value, d int) (bool, bool) {
+		if d > 10 || v == nil {
+			return false, false
+		}
+		if phi, ok := v.(*ssa.Phi); ok {
+			var val, have bool
+			for i, p := range phi.Block().Preds {
+				if !feas[cfgEdge{p, phi.Block()}] {
+					continue
+				}
+				ev, known := evalF(phi.Edges[i], d+1)
+				if !known || (have && ev != val) {
+					return false, false
+				}
+				val, have = ev, true
+			}
+			return val, have
+		}
+		if u, ok := v.(*ssa.UnOp); ok && u.Op == token.NOT {
+			x, known := evalF(u.X, d+1)
+			return !x, known
+		}
+		return evalCond(v, assign, nil, nil, depth+1)
+	}
+	var val, have bool
+	for _, ret := range returnsOf(o) {
+		if !reach[ret.Block()] || idx >= len(ret.Results) {
+			continue
+		}
+		res := ret.Results[idx]
+		// named results: the value stored into the result cell in the returning block
+		if ld, ok := res.(*ssa.UnOp); ok && ld.Op == token.MUL {
+			if vals := cellStoresBefore(ret); idx < len(vals) && len(vals) == len(ret.Results) {
+				res = vals[idx]
+			}
+		}
+		ev, known := evalF(res, 0)
+		if !known || (have && ev != val) {
+			return false, false
+		}
+		val, have = ev, true
+	}
+	return val, have
 }
 
 // leavesOf collects the boolean leaf values appearing in the branch conditions of fn.
@@ -493,17 +566,20 @@ func leavesOf(fn *ssa.Function) []ssa.Value {
 // short-circuit merges and early returns alike.
 func guardedSem(b *ssa.BasicBlock, match func(cond ssa.Value) (bool, bool)) bool {
 	fn := b.Parent()
-	want := map[ssa.Value]bool{}
-	for _, l := range leavesOf(fn) {
-		if rec, w := match(l); rec {
-			want[l] = w
+	memo := map[ssa.Value][2]bool{}
+	look := func(v ssa.Value) (bool, bool) {
+		if m, ok := memo[v]; ok {
+			return m[0], m[1]
 		}
-	}
-	if len(want) == 0 {
-		return false
+		rec, w := false, false
+		if _, isBool := v.Type().Underlying().(*types.Basic); isBool {
+			rec, w = match(v)
+		}
+		memo[v] = [2]bool{rec, w}
+		return rec, w
 	}
 	opposite := reachableUnder(fn, func(v ssa.Value) (bool, bool) {
-		if w, ok := want[v]; ok {
+		if rec, w := look(v); rec {
 			return !w, true
 		}
 		return false, false
@@ -512,7 +588,7 @@ func guardedSem(b *ssa.BasicBlock, match func(cond ssa.Value) (bool, bool)) bool
 		return false
 	}
 	same := reachableUnder(fn, func(v ssa.Value) (bool, bool) {
-		if w, ok := want[v]; ok {
+		if rec, w := look(v); rec {
 			return w, true
 		}
 		return false, false
@@ -541,6 +617,12 @@ func deepFuncs(fn *ssa.Function) []*ssa.Function {
 			if cc, _, isGo := callCommon(ins); cc != nil && !isGo {
 				if sc := cc.StaticCallee(); sc != nil && isHelper(sc) {
 					add(originOf(sc), depth+1)
+				}
+			}
+			// a named helper handed over as a function value (c.Query(deleteExpired))
+			for _, op := range ins.Operands(nil) {
+				if g, ok := (*op).(*ssa.Function); ok && g.Parent() == nil && isHelper(g) {
+					add(originOf(g), depth+1)
 				}
 			}
 		})
